@@ -2,7 +2,7 @@
 import json
 from gen import common, xpoll, sysattr, btcp, ux, framing
 
-LEAN_MODULE = ["XcmModel.Props.C16", "XcmModel.Props.Utls", "XcmModel.Props.Timer", "XcmModel.Props.Dns"]
+LEAN_MODULE = ["XcmModel.Props.C16", "XcmModel.Props.Utls", "XcmModel.Props.Timer", "XcmModel.Props.Dns", "XcmModel.Props.Funcs"]
 THEOREMS = [
     "XcmModel.Xpoll.kinv_fdRegMod", "XcmModel.Xpoll.kinv_fdRegAdd", "XcmModel.Xpoll.kinv_fdRegDel",
     "XcmModel.Xpoll.updateActive_post", "XcmModel.C16.reach_good",
@@ -14,6 +14,7 @@ THEOREMS = [
     "XcmModel.C16btls.C16_btls_idle_silent", "XcmModel.C16btls.C16_btls_idle_flush_only", "XcmModel.C16btls.C16_btls_blocked_send_is_accepted", "XcmModel.C16btls.C16_btls_quiet_after_eagain", "XcmModel.C16btls.C16_btls_quiet_after_eagain_retained", "XcmModel.C16btls.C16_btls_bell_reason",
     "XcmModel.TimerProps.timer_inv_run", "XcmModel.TimerProps.C16_timer_quiet", "XcmModel.TimerProps.C16_no_timers_quiet", "XcmModel.TimerProps.C16_wakeup_confirmed",
     "XcmModel.DnsProps.dns_inv_run", "XcmModel.DnsProps.C16_dns_quiet",
+    "XcmModel.FuncsTie.conn_event_tie", "XcmModel.FuncsTie.server_event_tie",
 ]
 
 
